@@ -142,6 +142,8 @@ def apply_mutant(src: str, m: M) -> str:
         if hit != 1:
             raise StaleMutant(f"keyword {kw} of {target} not found")
         return ast.unparse(tree)
+    if m.old == "<append-module>":
+        return src + "\n\n" + m.new + "\n"
     if m.old == "<decorate>":
         # new = dotted decorator expression added to the function
         scope.decorator_list.insert(0, ast.parse(m.new, mode="eval").body)
